@@ -554,7 +554,10 @@ impl Decode for Compact<$T> {
     open spec fn accepts(b: Seq<u8>) -> Option<nat> { compact_accepts(b, $N) }
     open spec fn dec_bytes(v: &Self) -> Seq<u8> { compact(v.0 as nat) }
     open spec fn need_depth(b: Seq<u8>) -> nat { 0 }
+    proof fn law_bound(b: Seq<u8>) {}
     //@fn compact.$T.decode :: compact | impl Decode for Compact<$T> | decode
+    //@ ret r
+    //@+ ensures r matches Ok(v) ==> compact_dec(old(input).bytes()) == Some((v.0 as nat, compact(v.0 as nat).len())),
 $START}
 } // mod compact_dec_$T
 """
@@ -630,7 +633,10 @@ impl Decode for Compact<$T> {
     open spec fn accepts(b: Seq<u8>) -> Option<nat> { compact_accepts(b, $N) }
     open spec fn dec_bytes(v: &Self) -> Seq<u8> { compact(v.0 as nat) }
     open spec fn need_depth(b: Seq<u8>) -> nat { 0 }
+    proof fn law_bound(b: Seq<u8>) {}
     //@fn compact.$T.decode :: compact | impl Decode for Compact<$T> | decode
+    //@ ret r
+    //@+ ensures r matches Ok(v) ==> compact_dec(old(input).bytes()) == Some((v.0 as nat, compact(v.0 as nat).len())),
 $START    //@ at before `let prefix = input.read_byte()?;`
     //@+ proof {
     //@+     compact_dec_big_lemmas::pow256_table();
@@ -654,11 +660,14 @@ $ARMS    //@ at before `let mut res = 0;`
     //@+     input.mem_room() == old(input).mem_room(),
     //@+     b0 == old(input).bytes(),
     //@+     b0.len() >= 1 && b0[0] % 4 == 3,
+    //@ at after `res |= $T::from(input.read_byte()?) << (i * 8);`
+    //@+ proof { assert(res == r0_ | ((b0[1 + i as int] as $T) << ((i * 8) as $T))); }
     //@ at before `res |= $T::from(input.read_byte()?) << (i * 8);`
+    //@+ let ghost r0_ = res;
     //@+ proof {
     //@+     compact_dec_big_lemmas::from_le_bound(b0.subrange(1, 1 + i as int));
-    //@+     assert forall|b: u8| (res | #[trigger] ((b as $T) << ((i * 8) as $T))) as nat == res as nat + (b as nat) * pow256(i as nat) by { or_shift_$T(res, b, i); }
     //@+     if b0.len() >= 2 + i {
+    //@+         or_shift_$T(res, b0[1 + i as int], i);
     //@+         compact_dec_big_lemmas::from_le_snoc(b0.subrange(1, 1 + i as int), b0[1 + i as int]);
     //@+         assert(b0.subrange(1, 1 + i as int).push(b0[1 + i as int]) =~= b0.subrange(1, 2 + i as int));
     //@+     }
